@@ -1,6 +1,9 @@
 //! One module per property (DESIGN.md section 5).
 pub mod common;
 
+pub mod c02;
+pub mod c03;
+pub mod c05;
 pub mod c06;
 pub mod c07;
 pub mod c08;
@@ -13,6 +16,9 @@ use crate::runner::Property;
 
 pub fn get(id: &str) -> Option<Property> {
     match id {
+        "C02" => Some(c02::property()),
+        "C03" => Some(c03::property()),
+        "C05" => Some(c05::property()),
         "C06" => Some(c06::property()),
         "C07" => Some(c07::property()),
         "C08" => Some(c08::property()),
